@@ -125,3 +125,116 @@ Example ex_params_gap : params_ok [(1, false); (3, false)] (ex_lateral true) = f
 Proof. vm_compute. reflexivity. Qed.
 Example ex_params_consistent : ParamsConsistent [(1, false); (2, false)] (ex_lateral true).
 Proof. apply C13_params. vm_compute. reflexivity. Qed.
+
+(* ---------------------------------------------------------------- the rules, one by one
+   (each Example is a fact about PostgreSQL that the relation / checker reproduces) *)
+(* further names: 17 = u (second table), 18 = z *)
+Definition tab_t := RTab false 10 (Cols [13]).
+Definition tab_u := RTab false 17 (Cols [13; 18]).
+Definition sel (ts : targets) (fs : fitems) (body : atoms) : query :=
+  QSelect WNone ts fs body SNil SNil ANil [].
+Definition col (q c : name) : atoms := ACons (ACol q c) ANil.
+Definition out1 (nm q c : name) : targets := TCons (TExpr nm (col q c)) TNil.
+
+(* JOIN ... ON sees the joined relations only:
+   SELECT a.x FROM t AS a, t AS b JOIN u AS c ON a.x = c.x   -- "a" is not visible in ON *)
+Example ex_join_on_scope :
+  check (sel (out1 0 11 13)
+           (FCons (FRel tab_t 11 [])
+              (FCons (FJoin JInner (FRel tab_t 12 []) (FRel tab_u 15 [])
+                        (ACons (ACol 11 13) (ACons (ACol 15 13) ANil))) FNil)) ANil)
+  = Err (E_missing_from, 11, 0).
+Proof. vm_compute. reflexivity. Qed.
+
+(* the right side of a RIGHT JOIN cannot refer laterally to the left side *)
+Definition ex_join_lat (jt : jointype) : query :=
+  sel (out1 0 12 14)
+      (FCons (FJoin jt (FRel tab_t 11 [])
+                (FSub true (sel (out1 14 11 13) FNil ANil) 12 []) ANil) FNil) ANil.
+Example ex_left_join_lateral : well_scoped (ex_join_lat JLeft) = true.
+Proof. vm_compute. reflexivity. Qed.
+Example ex_right_join_lateral : check (ex_join_lat JRight) = Err (E_invalid_ref, 11, 0).
+Proof. vm_compute. reflexivity. Qed.
+
+(* LIMIT must not contain variables of its own level; an outer level is fine *)
+Example ex_limit_var :
+  check (QSelect WNone (out1 0 11 13) (FCons (FRel tab_t 11 []) FNil) ANil SNil SNil (col 11 13) [])
+  = Err (E_invalid_ref, 11, 0).
+Proof. vm_compute. reflexivity. Qed.
+Example ex_limit_outer_var :
+  well_scoped (sel (TCons (TExpr 0 (ACons (ASub
+     (QSelect WNone (out1 0 12 13) (FCons (FRel tab_t 12 []) FNil) ANil SNil SNil (col 11 13) [])) ANil)) TNil)
+     (FCons (FRel tab_t 11 []) FNil) ANil) = true.
+Proof. vm_compute. reflexivity. Qed.
+
+(* ORDER BY may name an output column; two output columns of that name are ambiguous *)
+Example ex_order_by_output :
+  well_scoped (QSelect WNone (out1 14 11 13) (FCons (FRel tab_t 11 []) FNil) ANil SNil
+                 (SCons (SBare 14) SNil) ANil []) = true.
+Proof. vm_compute. reflexivity. Qed.
+Example ex_order_by_ambiguous :
+  check (QSelect WNone (TCons (TExpr 14 (col 11 13)) (out1 14 11 13)) (FCons (FRel tab_t 11 []) FNil) ANil SNil
+           (SCons (SBare 14) SNil) ANil []) = Err (E_ambiguous_order, 0, 14).
+Proof. vm_compute. reflexivity. Qed.
+
+(* an unqualified column provided by two range variables of the same level is ambiguous;
+   the nearest level wins over outer levels *)
+Example ex_unqualified_ambiguous :
+  check (sel (out1 0 0 13) (FCons (FRel tab_t 11 []) (FCons (FRel tab_u 15 []) FNil)) ANil)
+  = Err (E_ambiguous_column, 0, 13).
+Proof. vm_compute. reflexivity. Qed.
+Example ex_unqualified_nearest :
+  well_scoped (sel (TCons (TExpr 0 (ACons (ASub (sel (out1 0 0 13) (FCons (FRel tab_u 15 []) FNil) ANil)) ANil)) TNil)
+                 (FCons (FRel tab_t 11 []) FNil) ANil) = true.
+Proof. vm_compute. reflexivity. Qed.
+
+(* the same alias twice in one FROM clause *)
+Example ex_duplicate_alias :
+  check (sel (out1 0 11 13) (FCons (FRel tab_t 11 []) (FCons (FRel tab_u 11 []) FNil)) ANil)
+  = Err (E_dup_alias, 11, 0).
+Proof. vm_compute. reflexivity. Qed.
+
+(* WITH queries see earlier ones only *)
+Definition q_one (nm : name) : query := sel (TCons (TExpr nm ANil) TNil) FNil ANil.
+Example ex_cte_forward_reference :
+  check (QSelect (WSome false
+            (CCons 15 [] (sel (out1 14 16 14) (FCons (FRel (RCte 16) 16 []) FNil) ANil)
+            (CCons 16 [] (q_one 14) CNil)))
+           (out1 0 15 14) (FCons (FRel (RCte 15) 15 []) FNil) ANil SNil SNil ANil [])
+  = Err (E_cte_scope, 16, 0).
+Proof. vm_compute. reflexivity. Qed.
+
+(* INSERT ... SELECT does not see the target; RETURNING does *)
+Example ex_insert_source_target :
+  check (QInsert WNone tab_t 11 [13] (SrcQuery (sel (out1 13 11 13) FNil ANil)) CfNone (out1 14 11 13))
+  = Err (E_missing_from, 11, 0).
+Proof. vm_compute. reflexivity. Qed.
+Example ex_insert_returning_target :
+  check (QInsert WNone tab_t 11 [13] (SrcQuery (q_one 13)) CfNone (out1 14 11 13)) = Ok (Cols [14]).
+Proof. vm_compute. reflexivity. Qed.
+(* ON CONFLICT DO UPDATE sees "excluded" *)
+Example ex_conflict_excluded :
+  well_scoped (QInsert WNone tab_t 11 [13] (SrcQuery (q_one 13))
+                 (CfUpdate (col 0 13) [13] (col 7 13)) TNil) = true.
+Proof. vm_compute. reflexivity. Qed.
+
+(* a column that the sub-select does not output *)
+Example ex_missing_output_column :
+  check (sel (out1 0 12 18) (FCons (FSub false (sel (out1 14 11 13) (FCons (FRel tab_t 11 []) FNil) ANil) 12 []) FNil) ANil)
+  = Err (E_no_column, 12, 18).
+Proof. vm_compute. reflexivity. Qed.
+
+(* system columns: on base tables only, never through * *)
+Example ex_syscol_base : well_scoped (sel (out1 0 11 1) (FCons (FRel tab_t 11 []) FNil) ANil) = true.
+Proof. vm_compute. reflexivity. Qed.
+Example ex_syscol_subselect :
+  check (sel (out1 0 12 1) (FCons (FSub false (sel (TCons (TStar 11) TNil) (FCons (FRel tab_t 11 []) FNil) ANil) 12 []) FNil) ANil)
+  = Err (E_no_column, 12, 1).
+Proof. vm_compute. reflexivity. Qed.
+
+(* an unqualified table name is captured by a WITH query of the same name *)
+Example ex_table_captured :
+  check (QSelect (WSome false (CCons 10 [] (q_one 14) CNil)) (out1 0 11 13)
+           (FCons (FRel (RTab true 10 (Cols [13])) 11 []) FNil) ANil SNil SNil ANil [])
+  = Err (E_tab_shadowed, 10, 0).
+Proof. vm_compute. reflexivity. Qed.
